@@ -293,6 +293,7 @@ func judgeC14(sc *C14Scenario, runs []*C14Run) (map[string]string, c14Info) {
 	if sc.Radius > 0 && sc.HZ >= 10 && math.Abs(sc.Start[1]) <= 80 && math.Abs(sc.End[1]) <= 80 {
 		p, q := ecef(sc.Start[0], truncLat(sc.Start[1]), 0), ecef(sc.End[0], truncLat(sc.End[1]), 0)
 		cache := map[[2]int64]float64{}
+		cachePoly := map[[2]int64]float64{}
 		for _, r := range meas {
 			for id := range r.set {
 				if line.set[id] {
@@ -323,6 +324,21 @@ func judgeC14(sc *C14Scenario, runs []*C14Run) (map[string]string, c14Info) {
 					}
 					if sc.Start[1] == sc.End[1] && sc.Radius >= 0.5 && ratio > info.worstRatioEW {
 						info.worstRatioEW = ratio
+					}
+				}
+				if d > 1.01*sc.Radius+0.10 {
+					// "The segment" has two legitimate readings for this library: the straight chord
+					// between the end points (what the library measures, and what the property's
+					// observation note names) and the path the line's own voxels are taken from,
+					// linear in longitude/latitude. For long lines they differ by more than the band
+					// (the chord of a 580 km line runs 6.6 km under the surface); a voxel is flagged
+					// only if it is too far under both.
+					if d2, ok2 := cachePoly[k]; ok2 {
+						d = math.Min(d, d2)
+					} else {
+						d2 := polylineFootprintDist(sc, footprintCorners(sc.HZ, a[1], a[2]))
+						cachePoly[k] = d2
+						d = math.Min(d, d2)
 					}
 				}
 				if d > 1.01*sc.Radius+0.10 {
@@ -398,6 +414,24 @@ func gjkDegenerate(sc *C14Scenario, id string) string {
 	return ""
 }
 
+// polylineFootprintDist: distance between a footprint and the lon/lat-linear path between the
+// end points (64 chords at altitude 0).
+func polylineFootprintDist(sc *C14Scenario, k [4]v3) float64 {
+	const n = 64
+	la0, la1 := truncLat(sc.Start[1]), truncLat(sc.End[1])
+	best := math.Inf(1)
+	prev := ecef(sc.Start[0], la0, 0)
+	for i := 1; i <= n; i++ {
+		t := float64(i) / n
+		cur := ecef(sc.Start[0]+t*(sc.End[0]-sc.Start[0]), la0+t*(la1-la0), 0)
+		if d := segFootprintDist(prev, cur, k); d < best {
+			best = d
+		}
+		prev = cur
+	}
+	return best
+}
+
 // the library truncates latitudes to 10 decimals when a Point is built
 func truncLat(lat float64) float64 {
 	if lat > 0 {
@@ -417,7 +451,7 @@ func (sc *C14Scenario) decoy(r *simrt.Rand) *C14Scenario {
 		if sc.Radius == 0 {
 			d.Radius = []float64{0.0004, 0.00049, 0.3 * voxelWidthM(max64(sc.HZ, 5), sc.Start[1])}[r.Intn(3)]
 		} else {
-			d.Radius = []float64{0, sc.Radius * 0.5, sc.Radius * 1.5, sc.Radius + 0.0003, math.Max(0, sc.Radius-0.0003)}[r.Intn(5)]
+			d.Radius = []float64{0, sc.Radius * 0.5, sc.Radius + 0.0003, math.Max(0, sc.Radius-0.0003)}[r.Intn(4)]
 		}
 	case 3:
 		d.End[2] += 3 * float64(pow2(25)) / float64(pow2(sc.VZ))
@@ -427,7 +461,7 @@ func (sc *C14Scenario) decoy(r *simrt.Rand) *C14Scenario {
 	if !d.valid() || d.Radius > sc.Radius*1.5+1e-9 && sc.Radius > 0 {
 		return nil
 	}
-	if d.HZ < 8 && d.Radius > 0.5*voxelWidthM(d.HZ, 60) {
+	if d.HZ < 2 || d.HZ < 8 && d.Radius > 0.4*voxelWidthM(d.HZ, 60) {
 		return nil // coarse grids: the layer fit does not terminate for large clearances
 	}
 	return &d
@@ -437,7 +471,9 @@ func execC14Decoy(d *C14Scenario, kind string) {
 	if d == nil {
 		return
 	}
-	r := &C14Run{Kind: kind, order: simrt.NewAscOrder(), budget: 1_500_000}
+	// full step budget: unwinding an intervening call in the middle of the library would not
+	// be a legal perturbation (it could leave a lock held)
+	r := &C14Run{Kind: kind, order: simrt.NewAscOrder()}
 	d.exec(r)
 }
 
@@ -507,7 +543,7 @@ func (w *Worker) runC14Case(idx int64) {
 	simrt.RestoreGlobals() // every case starts from the package state of a fresh process
 	expensive := false
 	for i, r := range runs {
-		if i > 0 && sc.valid() && g.R.Chance(1, 3) {
+		if i > 0 && sc.valid() && g.R.Chance(1, 3) && !expensive && runs[0].steps < 60_000 {
 			if r.Decoy = sc.decoy(g.R); r.Decoy != nil {
 				execC14Decoy(r.Decoy, r.Kind)
 				w.St.Evaluations++
